@@ -172,22 +172,33 @@ def oracle_bounded_instance():
         T = B.choose('T', [2, 3, 8])
         metric = B.choose('metric', ['cos', 'euclidean', 'multiply'])
         alg = B.choose('alg', ['optimal', 'greedy'])
+        flat = B.choose('flat', [False, True, True])        # True: frequency and time flattened, one global permutation
+        if flat:
+            F = 1
         ref = np.array(B.real('r', (K, F, T), dist=(0.05, 1.0)))
-        field = np.stack([np.array(B.rng.sample(range(K), K)) for _ in range(F)], axis=1)
+        field = np.zeros((K, F), dtype=int)
         for f in range(F):
+            col = B.rng.sample(range(K), K)
             for k in range(K):
-                B.used_env['#pf_%d_%d' % (k, f)] = int(field[k, f]) if ('#pf_%d_%d' % (k, f)) not in B.env else B.env['#pf_%d_%d' % (k, f)]
-                field[k, f] = int(B.used_env['#pf_%d_%d' % (k, f)])
-        return {'ref': ref, 'mask': ref[field, np.arange(F)], 'metric': metric, 'alg': alg}
+                key = '#pf_%d_%d' % (k, f)
+                field[k, f] = int(B.env[key]) if key in B.env else col[k]
+                B.used_env[key] = int(field[k, f])
+        mask = ref[field, np.arange(F)]
+        if flat:
+            return {'ref': ref[:, 0, :], 'mask': mask[:, 0, :], 'metric': metric, 'alg': alg, 'flat': True}
+        return {'ref': ref, 'mask': mask, 'metric': metric, 'alg': alg, 'flat': False}
 
     def call(inp):
-        return pa.OraclePermutationAlignment(inp['metric'], inp['alg'])(inp['mask'], inp['ref'])
+        al = pa.OraclePermutationAlignment(inp['metric'], inp['alg'])
+        if inp['flat']:
+            return inp['mask'][al.calculate_mapping(inp['mask'], inp['ref'])]
+        return al(inp['mask'], inp['ref'])
 
     def ensures(sp, inp, out):
         yield 'reference-restored-exactly', bool(np.array_equal(np.asarray(out), np.asarray(inp['ref'])))
 
     return Instance('C15', PA + 'OraclePermutationAlignment.calculate_mapping', 'bounded-oracle-inversion', make, call, ensures,
-                    mode='bounded', bounded_n=200, frame=False)
+                    mode='bounded', bounded_n=300, frame=False)
 
 
 def instances(tier):
